@@ -117,6 +117,24 @@ theorem delete_keeps_refs (agg : Nat → Bool) (sp sp' : Space) (n : Nat) (b : B
   rw [h] at e; cases e
   exact p.refsF rfl
 
+/-- **The parameter `agg` and the real walk.**  `find_aggregates_of` is
+`find_references(n, (Aggregates, true))`.  If `agg` is the subtype closure of `Aggregates` (44) in
+the HasSubtype references of the state, then — whenever the walk of `reference_type_matches`
+returns — the children the real function finds are exactly `aggregatesOf agg` (C28's
+`findRefs_filtered_partial`). -/
+theorem aggregatesOf_is_find_aggregates_of (agg : Nat → Bool) (sp : Space) (fuel n : Nat)
+    (hagg : ∀ t, agg t = true ↔ C28.Sub sp.refs 44 t) (r : Option (List (Nat × Nat)))
+    (h : findRefs sp.refs fuel n (some (44, true)) = some r) (c : Nat) :
+    c ∈ aggregatesOf agg sp n ↔ ∃ t, (t, c) ∈ C28.found r := by
+  rw [mem_aggregatesOf]
+  constructor
+  · rintro ⟨u, ha, hr⟩
+    exact ⟨u, (C28.findRefs_filtered_partial sp.refs fuel n 44 true r h u c).2
+      ⟨hr, by simpa [C28.Matches] using (hagg u).1 ha⟩⟩
+  · rintro ⟨t, hm⟩
+    obtain ⟨hr, hs⟩ := (C28.findRefs_filtered_partial sp.refs fuel n 44 true r h t c).1 hm
+    exact ⟨t, (hagg t).2 (by simpa [C28.Matches] using hs), hr⟩
+
 /-! ### Non-vacuity and the defect that was repaired -/
 
 def aggStd (t : Nat) : Bool := t == 44 || t == 46 || t == 47 || t == 49 || t == 56
